@@ -108,6 +108,10 @@ def gen_pipeline(scratch, gen_dir):
     out.append("/-- passes that return immediately when an earlier pass has reported errors -/")
     out.append("def passesSkippedAfterErrors : List String := [" + ", ".join(f'"{p}"' for p in sorted(passes.get("earlyReturn", []))) + "]")
     out.append("")
+    out.append("/-- hash of the body (as printed by go/printer) of every validation pass -/")
+    bh = passes.get("bodyHash", {})
+    out.append("def passBodyHash : List (String × String) := [" + ", ".join(f'("{p}", "{bh.get(p, "?")}")' for p in passes.get("passes", [])) + "]")
+    out.append("")
     rsv = facts(scratch, "reserved")
     for lang in ("cpp", "python", "matlab"):
         out.append(f"/-- keys of the reserved-name table of the {lang} back end (go/ast) -/")
